@@ -4,6 +4,7 @@ import RsModel.Lemmas.AttrTree
 import RsModel.Lemmas.ModeCold
 import RsModel.Lemmas.LeavesAttr
 import RsModel.Lemmas.ColdStrip
+import RsModel.Lemmas.WarmTree
 /-!
 # C13 — composition laws: nesting, neutral elements and wrappers change nothing
 -/
@@ -184,5 +185,22 @@ text of the tree equal those of the tree without the wrappers -/
 theorem c13_cached_cold_any_depth (s : Src) (o : Opts) (σ : Store) (hn : s.ids.Nodup) (hc : Cold σ s.ids) :
     (s.stream o σ).1 = (s.strip.stream o []).1 ∧ (getMap s o σ).1 = (getMap s.strip o []).1 ∧ s.src = s.strip.src :=
   ⟨Src.stream_strip s o σ hn hc, getMap_strip s o σ hn hc, (Src.strip_src s).symm⟩
+
+
+/-- **every regrouping at once, at name level, for any leaves**: two trees with the same sequence of leaves — whatever the leaves are
+(SourceMapSource with any map whose indices lie inside its tables, with or without inner map; ReplaceSource nodes; raw; original)
+and however ConcatSource groups them (typed or boxed, single-child wrappers, empty ConcatSources) — resolve every byte of the
+stream to the same file name, original line, original column and name.  No "one content per file name" is needed
+(`c13_same_leaves_stream` compares the embedded contents as well and needs it). -/
+theorem c13_same_leaves_names (a b : Src) (ha : a.NoCached) (hb : b.NoCached) (ia : a.IdxHyp) (ib : b.IdxHyp) (h : a.leaves = b.leaves) :
+    NA (a.stream ⟨true, false⟩ []).1.evs = NA (b.stream ⟨true, false⟩ []).1.evs :=
+  NA_same_leaves a b ha hb ia ib h
+
+/-- … and with CachedSource wrappers on cold caches anywhere in the two trees (strip them first: `c13_cached_cold_any_depth`) -/
+theorem c13_same_leaves_names_cold (a b : Src) (σa σb : Store) (hna : a.ids.Nodup) (hnb : b.ids.Nodup) (hca : Cold σa a.ids) (hcb : Cold σb b.ids)
+    (ia : a.strip.IdxHyp) (ib : b.strip.IdxHyp) (h : a.strip.leaves = b.strip.leaves) :
+    NA (a.stream ⟨true, false⟩ σa).1.evs = NA (b.stream ⟨true, false⟩ σb).1.evs := by
+  rw [Src.stream_strip a _ σa hna hca, Src.stream_strip b _ σb hnb hcb]
+  exact NA_same_leaves _ _ (Src.strip_nc a) (Src.strip_nc b) ia ib h
 
 end Rs
